@@ -141,6 +141,14 @@ CHECKS = {
          "scenarios' output is not shown; sys.stdout/sys.stderr are the original objects at every match/result callback, in after_scenario and after the run for every outcome; root logger handlers/level restored per scenario; pass-through order with capture off.",
          "In-process sentinel streams stand for the real streams (12 child-process runs in thorough confirm the correspondence); --logging-filter sub-logger semantics are accepted either way (docs contradict themselves).",
          "DESIGN.md section 5, C18"),
+
+ "C13": ("model_checking",
+         "explicit-state breadth-first search over operation histories on the real Context against a list-of-dicts reference model (canonical-state dedup, no-dedup cross-check), exhaustive raising-subset enumeration of registered cleanups, and real runs with attribute/cleanup activity and faults at every callback",
+         "Operations {push/pop scope, set/get/delete/contains, _set_root_attribute, use_or_assign/use_or_create, add_cleanup plain/args/kwargs/layer=, use_fixture of 8 kinds, user/behave mode switches, end-of-run cleanups} to depth 5 (thorough 6, 7 on sub-alphabets): "
+         "after every transition result/exception class, every name's visible value, membership, layer stack, mode and the complete cleanup log are compared with the reference; every placement of <=3 (thorough 4) cleanup registrations x every raising subset; "
+         "ModelRunner runs on a tagged feature+outline+rule where every callback sets/shadows/deletes attributes and registers cleanups, with every single raising cleanup/callback and pairs; execute_steps restores text/table.",
+         "Trusts the reference model and the canonical abstraction (validated by the no-dedup search to depth 3/4); ContextMaskWarning text is not checked; no random tail beyond the depth bound.",
+         "DESIGN.md section 5, C13"),
 }
 PENDING_REASON = "check not built yet in this round (planned, see DESIGN.md section 5); nothing is claimed for it so far"
 
